@@ -72,6 +72,9 @@ CHECKS = {
  "C08": dict(cat="exploration", tech="TLA+ Robust spec (every partial operation on attacker-controlled values an explicit guarded step, invariant NeverCrash) enumerates hostile field-class combinations; each is sent through real UDP/TCP listeners and the real loop (no recover: a panic ends the driver and is reported with its input), plus seeded byte-level mutation; Trace_Robust judges the sentinel / memory / connection-closure contract",
     text="Model-directed enumeration: all combinations of at most two hostile fields (15k states; start line, Content-Length incl. 2^31 / 2^62 / negative / non-numeric / larger / smaller, Via incl. '[' / '[]' / empty / huge / 1000 entries / SCTP, Route incl. unsupported transport, From/To/CSeq/Request-URI, 5000 headers / parameters) x request/response x UDP/TCP, executed on proxies with received-support on and off; seeded mutation of a corpus in batches. Judged: process survives, a sentinel request is still relayed after every input (within 5 s), memory allocated <= 256 x bytes + 4 MiB, undecodable TCP input closes its connection.",
     note=TB + "coverage-guided fuzzing is another technique family and is not used: the arbitrary-byte-string half of the quantifier is covered by seeded mutation only; loopback destinations only.", ref="5/C08"),
+ "C09": dict(cat="exploration", tech="TLA+ Threads spec (goroutines, shared objects, the lock the code holds at every access): TLC exhaustive over all interleavings for NoRace / Confined / Progress; bound to the code by load runs under the Go race detector with inert hooks and by probe runs whose per-phase accounting Trace_Threads (TLC) judges",
+    text="Threads.tla model-checked (121k states; the unlocked shared learnt-route table of the pinned tree violates NoRace). On the real code: 2-4 listeners of one service started by startProxy, UDP+TCP clients, UDP+TCP answering backends, a host-name backend churned through the real resolver path, Route next hops by names only the system resolver knows, GOMAXPROCS 16/2/4/1, several seeds; race reports whose stacks lie in the repository's sources and fatal errors are violations; probe runs check delivery to exactly one backend, responses back to the sender, no overlap of brackets on the learnt-route table, sentinels after the load.",
+    note=TB + "schedules are sampled by stress, not enumerated; loss is claimed only without membership churn; a probe verdict must reproduce on the same seed.", ref="5/C09"),
 }
 NA_REASON = "check not built yet (work in progress; see DESIGN.md section 9)"
 
